@@ -302,3 +302,437 @@ def fam_c06(tier, seed):
 FAMILIES = {
     "C01": fam_c01, "C06": fam_c06, "C07": fam_c07, "C08": fam_c08, "C17": fam_c17, "C20": fam_c20,
 }
+
+# ------------------------------------------------------------------------------------------------
+# connection-level families
+
+def _single_app():
+    return [serve("recv", "inline")]
+
+def _with_read(plan, upto=None, sizes=None, to_eof=False, ask=0):
+    p = dict(plan)
+    if upto is not None:
+        p["upto"] = upto
+    if sizes:
+        p["read"] = list(sizes)
+    if to_eof:
+        p["to_eof"] = True
+    if ask:
+        p["ask"] = ask
+    return p
+
+def _body_variants(tier):
+    """(tag, Msg kwargs) for a request with a body"""
+    v = [
+        ("cl1", dict(framing="cl", body_len=1)),
+        ("cl5", dict(framing="cl", body_len=5)),
+        ("cl1023", dict(framing="cl", body_len=1023)),
+        ("cl1024", dict(framing="cl", body_len=1024)),
+        ("cl1025", dict(framing="cl", body_len=1025)),
+        ("cl5000", dict(framing="cl", body_len=5000)),
+        ("ch5", dict(framing="chunked", body_len=5, chunks=[5])),
+        ("ch5x1", dict(framing="chunked", body_len=5, chunks=[1])),
+        ("ch2000", dict(framing="chunked", body_len=2000, chunks=[700, 1, 1299])),
+        ("ch1024ext", dict(framing="chunked", body_len=1024, chunks=[1000, 24], chunk_opts=dict(hexcase="upper", lead0=2, ext=";x=y"))),
+        ("ch0", dict(framing="chunked", body_len=0)),
+    ]
+    if tier == "thorough":
+        v += [("cl4096", dict(framing="cl", body_len=4096)), ("cl70000", dict(framing="cl", body_len=70000)),
+              ("ch70000", dict(framing="chunked", body_len=70000, chunks=[8192, 100, 30000])),
+              ("ch3x1000", dict(framing="chunked", body_len=3000, chunks=[1000]))]
+    return v
+
+def fam_c09(tier, seed):
+    rng = _rng("C09", seed)
+    scs = []
+    k = 0
+    finishes = {"respond": lambda: respond(200, 4), "drop": lambda: drop(), "writer": lambda: writer([7], flush="last")}
+    followers = {
+        "get": lambda: [Msg()],
+        "post-small": lambda: [Msg(method="POST", framing="cl", body_len=9, plan=_with_read(respond(200, 3), to_eof=True))],
+        "two": lambda: [Msg(), Msg(method="POST", framing="chunked", body_len=12, chunks=[5], plan=_with_read(respond(200, 2), to_eof=True))],
+    }
+    for tag, kw in _body_variants(tier):
+        n = kw["body_len"]
+        prefixes = sorted(set([0, 1, n // 2, max(n - 1, 0), n]))
+        cons = [("upto%d" % p, dict(upto=p, sizes=[512])) for p in prefixes if p > 0 or True]
+        cons.append(("eof", dict(sizes=[300], to_eof=True)))
+        for (ctag, ckw), fin, fol in itertools.product(cons, sorted(finishes), sorted(followers)):
+            if tier == "quick" and rng.random() > 0.35:
+                continue
+            first = Msg(method="POST", plan=_with_read(finishes[fin](), **ckw), **kw)
+            d, j, ln = conn([first] + followers[fol](), 0)
+            sc = scenario("C09-%04d" % k, "C09", [(d, j, ln)], _single_app(), horizon_ms=100)
+            sc["tags"] = ["boundary", tag, ctag, fin, "follower:" + fol]
+            if kw["framing"] == "chunked" and ctag != "eof":
+                sc["tags"].append("chunked-body-not-read-to-eof")
+            scs.append(sc)
+            k += 1
+    return scs
+
+def fam_c03(tier, seed):
+    rng = _rng("C03", seed)
+    scs = []
+    k = 0
+    programs = [("one", [1]), ("seven", [7]), ("kib", [1024]), ("huge", [200000]), ("mixed", [1, 1023, 2, 4096, 3])]
+    for tag, kw in _body_variants("thorough"):
+        for ptag, sizes in programs:
+            if tier == "quick" and kw["body_len"] > 6000 and ptag in ("one", "seven"):
+                continue
+            if tier == "quick" and ptag == "one" and kw["body_len"] > 1100:
+                continue
+            for follow, both, case in itertools.product(["none", "request", "garbage"], [False, True], ["std", "lower", "upper"]):
+                if both and kw["framing"] != "chunked":
+                    continue
+                if tier == "quick" and rng.random() > 0.3:
+                    continue
+                names = {"std": ("Content-Length", "Transfer-Encoding"), "lower": ("content-length", "transfer-encoding"),
+                         "upper": ("CONTENT-LENGTH", "TRANSFER-ENCODING")}[case]
+                first = Msg(method="POST", plan=_with_read(respond(200, 4), sizes=sizes, to_eof=True), cl_name=names[0],
+                            te_name=names[1], both=both, **kw)
+                msgs = [first] + ([Msg()] if follow == "request" else [])
+                trailing = b"\x01\x02 garbage bytes\r\n\r\n" if follow == "garbage" else b""
+                d, j, ln = conn(msgs, 0, trailing=trailing, trailing_cls=("r400" if trailing else None))
+                sc = scenario("C03-%04d" % k, "C03", [(d, j, ln)], _single_app(), horizon_ms=100)
+                sc["tags"] = ["framing", tag, "reads:" + ptag, "follow:" + follow, "names:" + case] + (["cl+te"] if both else [])
+                scs.append(sc)
+                k += 1
+    # no body at all, and an upgrade request (body = rest of the connection)
+    for ptag, sizes in programs[:3]:
+        d, j, ln = conn([Msg(plan=_with_read(respond(200, 4), sizes=sizes, to_eof=True)), Msg()], 0)
+        sc = scenario("C03-%04d" % k, "C03", [(d, j, ln)], _single_app(), horizon_ms=100)
+        sc["tags"] = ["framing", "nobody", "reads:" + ptag]
+        scs.append(sc)
+        k += 1
+    for n in (0, 1, 700, 3000):
+        up = Msg(conn="upgrade", framing="upgrade", body_len=n, extra_headers=[("Upgrade", "verif")], plan={"ans": {"how": "upgrade", "len": 10}})
+        d, j, ln = conn([up], 0)
+        sc = scenario("C03-%04d" % k, "C03", [(d, j, ln)], _single_app(), horizon_ms=100)
+        sc["tags"] = ["framing", "upgrade", "n:%d" % n]
+        scs.append(sc)
+        k += 1
+    return scs
+
+def fam_c11(tier, seed):
+    rng = _rng("C11", seed)
+    scs = []
+    k = 0
+    kinds = {
+        "none": lambda: Msg(),
+        "b1": lambda: Msg(method="POST", framing="cl", body_len=1),
+        "b1024": lambda: Msg(method="POST", framing="cl", body_len=1024),
+        "b1025": lambda: Msg(method="POST", framing="cl", body_len=1025, plan=_with_read(respond(200, 3), sizes=[4096], to_eof=True)),
+        "chunked": lambda: Msg(method="POST", framing="chunked", body_len=30, chunks=[7], plan=_with_read(respond(200, 3), sizes=[4096], to_eof=True)),
+    }
+    names = sorted(kinds)
+    combos = []
+    for n in (2, 3, 4):
+        combos += list(itertools.product(names, repeat=n))
+    combos = _sample(rng, combos, 70 if tier == "quick" else 500)
+    combos += [tuple(["none"] * 8), ("b1024",) * 6, ("none", "b1", "b1024", "none", "b1", "b1024", "none", "b1")]
+    combos += [("b1025", "none"), ("chunked", "none"), ("none", "b1025", "none"), ("b1024", "none"), ("b1025", "b1025", "none")]
+    for combo in combos:
+        small_only = all(c in ("none", "b1", "b1024") for c in combo)
+        progs = []
+        # (a) collect everything that can be read ahead, then answer in order
+        nsmall = 0
+        for c in combo:
+            if c in ("none", "b1", "b1024"):
+                nsmall += 1
+            else:
+                nsmall += 1
+                break
+        progs.append(("collect", [{"op": "collect", "k": nsmall, "kind": "recv"}, {"op": "handle", "sel": "all", "mode": "inline"},
+                                  {"op": "serve", "kind": "recv", "mode": "inline", "max_empty": 1, "ms": 0}]))
+        # (b) one at a time (large bodies are read to EOF by their plans, then the successor is awaited)
+        progs.append(("serve", [{"op": "serve", "kind": "recv", "mode": "inline", "max_empty": 1, "ms": 0}]))
+        # (c) read a large body to EOF but answer only at the end: the successor must still arrive
+        for ptag, prog in progs:
+            msgs = [kinds[c]() for c in combo]
+            if ptag == "serve":
+                for m, c in zip(msgs, combo):
+                    if c in ("b1025", "chunked") and rng.random() < 0.5:
+                        m.plan = _with_read(keep(), sizes=[4096], to_eof=True)
+            d, j, ln = conn(msgs, 0)
+            sc = scenario("C11-%04d" % k, "C11", [(d, j, ln)], [{"prog": prog}], horizon_ms=100)
+            sc["tags"] = ["readahead", ptag, "pipe:" + "+".join(combo)] + (["small-only"] if small_only else [])
+            scs.append(sc)
+            k += 1
+    return scs
+
+def fam_c12(tier, seed):
+    rng = _rng("C12", seed)
+    scs = []
+    k = 0
+    conns_hdr = [None, "close", "keep-alive", "Close", "KEEP-ALIVE", "upgrade", "foo", "keep-alive, close", "foo, upgrade", "Keep-Alive"]
+    versions = ["1.1", "1.0"]
+    cases = list(itertools.product(versions, conns_hdr))
+    for n in (1, 2, 3):
+        for pos in range(n):
+            for ver, ch in cases:
+                for trail in ("none", "request", "garbage"):
+                    for half in (None, pos) if n > 1 else (None,):
+                        if tier == "quick" and rng.random() > 0.22:
+                            continue
+                        msgs = []
+                        for i in range(n):
+                            if i == pos:
+                                kw = {}
+                                if ch is not None and "upgrade" in ch.lower():
+                                    kw = dict(framing="upgrade", body_len=0)
+                                msgs.append(Msg(version=ver, conn=ch, **kw))
+                            else:
+                                msgs.append(Msg())
+                        if trail == "request":
+                            msgs.append(Msg())
+                        trailing = b"GARBAGE\r\n\r\n" if trail == "garbage" else b""
+                        d, j, ln = conn(msgs, 0, trailing=trailing, trailing_cls=("r400" if trailing else None))
+                        if half is not None:
+                            d["prog"] = [{"op": "send", "to": d["msgs"][half]["be"]}, {"op": "half"}]
+                        sc = scenario("C12-%04d" % k, "C12", [(d, j, ln)], _single_app(), horizon_ms=100)
+                        sc["tags"] = ["persistence", "v" + ver, "conn:%s" % ch, "pos:%d/%d" % (pos, n), "trail:" + trail] + (["half"] if half is not None else [])
+                        scs.append(sc)
+                        k += 1
+    return scs
+
+def _bad_heads():
+    """(tag, cls, raw head with @URL@, why)"""
+    return [
+        ("two-fields", "r400", b"GET @URL@\r\nHost: x\r\n\r\n"),
+        ("one-field", "r400", b"GET\r\nHost: x\r\n\r\n"),
+        ("ver-1.2", "r400", b"GET @URL@ HTTP/1.2\r\nHost: x\r\n\r\n"),
+        ("ver-lower", "r400", b"GET @URL@ http/1.1\r\nHost: x\r\n\r\n"),
+        ("ver-garbage", "r400", b"GET @URL@ FOO\r\nHost: x\r\n\r\n"),
+        ("ver-http11", "r400", b"GET @URL@ HTTP/11\r\nHost: x\r\n\r\n"),
+        ("no-colon", "r400", b"GET @URL@ HTTP/1.1\r\nHost x\r\n\r\n"),
+        ("no-colon-2nd", "r400", b"GET @URL@ HTTP/1.1\r\nHost: x\r\nBroken\r\n\r\n"),
+        ("nonascii-line", "close", b"GET @URL@\xc3\xa9 HTTP/1.1\r\nHost: x\r\n\r\n"),
+        ("nonascii-name", "close", b"GET @URL@ HTTP/1.1\r\nH\xf6st: x\r\n\r\n"),
+        ("nonascii-value", "close", b"GET @URL@ HTTP/1.1\r\nHost: \xff\xfe\r\n\r\n"),
+        ("expect-bad", "r417", b"GET @URL@ HTTP/1.1\r\nHost: x\r\nExpect: 200-ok\r\n\r\n"),
+        ("expect-empty", "r417", b"GET @URL@ HTTP/1.1\r\nHost: x\r\nExpect: \r\n\r\n"),
+        ("expect-case", "r417", b"GET @URL@ HTTP/1.1\r\nHost: x\r\nEXPECT: 100-Continues\r\n\r\n"),
+        ("http2", "r505", b"GET @URL@ HTTP/2.0\r\nHost: x\r\n\r\n"),
+        ("http3", "r505", b"GET @URL@ HTTP/3.0\r\nHost: x\r\n\r\n"),
+    ]
+
+def fam_c10(tier, seed):
+    rng = _rng("C10", seed)
+    scs = []
+    k = 0
+    for tag, cls, raw in _bad_heads():
+        for n in (1, 2, 3, 4):
+            for pos in range(n):
+                for speed in ("fast", "slow"):
+                    if n == 1 and speed == "slow":
+                        continue
+                    if tier == "quick" and n >= 3 and rng.random() > 0.4:
+                        continue
+                    msgs = []
+                    for i in range(n):
+                        if i == pos:
+                            msgs.append(Msg(cls=cls, why="C10", raw_head=raw))
+                        else:
+                            p = respond(200, 6)
+                            if speed == "slow":
+                                p["delay_ns"] = 3 * MS
+                            msgs.append(Msg(plan=p))
+                    d, j, ln = conn(msgs, 0)
+                    sc = scenario("C10-%04d" % k, "C10", [(d, j, ln)], [serve("recv", "spawn")], horizon_ms=100)
+                    sc["tags"] = ["reject", tag, cls, "pos:%d/%d" % (pos, n), speed]
+                    if cls == "r505":
+                        sc["tags"].append("version-above-1.1")
+                    scs.append(sc)
+                    k += 1
+    return scs
+
+def fam_c16(tier, seed):
+    rng = _rng("C16", seed)
+    heads = []
+    for hname, hval in (("Content-Length", "5"), ("Transfer-Encoding", "chunked"), ("X-Other", "v")):
+        for ws in (" ", "\t"):
+            heads.append(("ws-before-name:%s:%r" % (hname, ws), "GET @URL@ HTTP/1.1\r\nHost: x\r\n%s%s: %s\r\n\r\n" % (ws, hname, hval), "leading-ws"))
+            heads.append(("ws-in-name:%s:%r" % (hname, ws), "GET @URL@ HTTP/1.1\r\nHost: x\r\n%s%s%s: %s\r\n\r\n" % (hname[:3], ws, hname[3:], hval), "name-ws"))
+            heads.append(("ws-before-colon:%s:%r" % (hname, ws), "GET @URL@ HTTP/1.1\r\nHost: x\r\n%s%s: %s\r\n\r\n" % (hname, ws, hval), "name-ws"))
+            heads.append(("ws-first-header:%s:%r" % (hname, ws), "GET @URL@ HTTP/1.1\r\n%s%s: %s\r\nHost: x\r\n\r\n" % (ws, hname, hval), "leading-ws"))
+    for tag, val in (("empty", ""), ("plus", "+5"), ("minus", "-5"), ("digits-alpha", "5a"), ("alpha-digits", "a5"), ("list", "5, 5"),
+                     ("spaces", "5 5"), ("hex", "0x10"), ("overflow", "9" * 25), ("alpha", "abc"), ("float", "5.0")):
+        heads.append(("cl-" + tag, "POST @URL@ HTTP/1.1\r\nHost: x\r\nContent-Length: %s\r\n\r\n" % val, "bad-content-length"))
+    scs = []
+    k = 0
+    smuggled = b"hello"
+    for tag, raw, kind in heads:
+        for n in (1, 2, 3):
+            for pos in range(n):
+                if tier == "quick" and n == 3 and rng.random() > 0.5:
+                    continue
+                msgs = []
+                for i in range(n):
+                    if i == pos:
+                        msgs.append(Msg(cls="r400", why="C16", raw_head=raw.encode("latin1")))
+                    else:
+                        msgs.append(Msg())
+                # after the rejected head: five body-looking bytes and a would-be smuggled request
+                d, j, ln = conn(msgs[:pos + 1], 0, trailing=smuggled + b"GET /c0m9 HTTP/1.1\r\nHost: smuggled\r\n\r\n")
+                if pos + 1 < n:
+                    pass
+                # requests before the bad one only (what follows it must never be parsed)
+                sc = scenario("C16-%04d" % k, "C16", [(d, j, ln)], _single_app(), horizon_ms=100)
+                sc["tags"] = ["smuggling", tag, kind, "pos:%d" % pos]
+                scs.append(sc)
+                k += 1
+    # accepted forms must keep working (no over-rejection): "5", "05", " 5 "
+    for val in ("5", "05", " 5 ", "0"):
+        n = int(val.strip())
+        m = Msg(method="POST", headers=[("Host", "x"), ("Content-Length", val)], framing="cl", body_len=n, plan=_with_read(respond(200, 2), sizes=[64], to_eof=True))
+        d, j, ln = conn([m, Msg()], 0)
+        sc = scenario("C16-%04d" % k, "C16", [(d, j, ln)], _single_app(), horizon_ms=100)
+        sc["tags"] = ["smuggling", "accepted-cl:%r" % val]
+        scs.append(sc)
+        k += 1
+    return scs
+
+def fam_c18(tier, seed):
+    rng = _rng("C18", seed)
+    scs = []
+    k = 0
+    expects = [None, "100-continue", "100-Continue", "100-CONTINUE"]
+    lens = [0, 5, 1024, 1025]
+    progs = {
+        "noask": lambda n: respond(200, 3),
+        "ask1": lambda n: _with_read(respond(200, 3), ask=1),
+        "ask3": lambda n: _with_read(respond(200, 3), ask=3),
+        "readall": lambda n: _with_read(respond(200, 3), sizes=[600], to_eof=True),
+        "partial": lambda n: _with_read(respond(200, 3), sizes=[2], upto=min(2, n)),
+        "drop-noask": lambda n: drop(),
+    }
+    for exp, n, pname, pos in itertools.product(expects, lens, sorted(progs), (0, 1)):
+        if tier == "quick" and rng.random() > 0.6:
+            continue
+        m = Msg(method="POST", framing="cl", body_len=n, expect=exp, plan=progs[pname](n))
+        msgs = ([Msg()] if pos == 1 else []) + [m]
+        d, j, ln = conn(msgs, 0)
+        me = d["msgs"][pos]
+        if exp is not None and n > 0:
+            # the client withholds the body until it has seen the interim response (or the final one)
+            d["prog"] = [{"op": "send", "to": me["he"]}, {"op": "await", "frames": pos + 1}, {"op": "send", "to": ln}]
+        sc = scenario("C18-%04d" % k, "C18", [(d, j, ln)], _single_app(), horizon_ms=100)
+        sc["tags"] = ["continue", "expect:%s" % exp, "len:%d" % n, pname, "pos:%d" % pos]
+        scs.append(sc)
+        k += 1
+    return scs
+
+def corpus(tier):
+    """conversations covering every framing kind and error class (C13, C15)"""
+    c = []
+    c.append(("get2", lambda: [Msg(), Msg()], b""))
+    c.append(("post-small", lambda: [Msg(method="POST", framing="cl", body_len=20, plan=_with_read(respond(200, 3), sizes=[8], to_eof=True)), Msg()], b""))
+    c.append(("post-1025", lambda: [Msg(method="POST", framing="cl", body_len=1025, plan=_with_read(respond(200, 3), sizes=[500], to_eof=True)), Msg()], b""))
+    c.append(("chunked", lambda: [Msg(method="POST", framing="chunked", body_len=23, chunks=[10, 1, 12], plan=_with_read(respond(200, 3), sizes=[9], to_eof=True)), Msg()], b""))
+    c.append(("chunked-ext", lambda: [Msg(method="POST", framing="chunked", body_len=17, chunks=[16, 1], chunk_opts=dict(hexcase="upper", lead0=1, ext=";a=b"), plan=_with_read(respond(200, 3), sizes=[64], to_eof=True)), Msg()], b""))
+    c.append(("unread-body", lambda: [Msg(method="POST", framing="cl", body_len=1500, plan=respond(200, 3)), Msg()], b""))
+    c.append(("head-close", lambda: [Msg(method="HEAD"), Msg(conn="close")], b""))
+    c.append(("v10", lambda: [Msg(version="1.0", conn="keep-alive"), Msg(version="1.0")], b""))
+    c.append(("bad-line", lambda: [Msg(), Msg(cls="r400", why="C10", raw_head=b"GET @URL@\r\n\r\n")], b""))
+    c.append(("bad-header", lambda: [Msg(cls="r400", why="C10", raw_head=b"GET @URL@ HTTP/1.1\r\nNoColonHere\r\n\r\n")], b""))
+    c.append(("expect-bad", lambda: [Msg(), Msg(cls="r417", why="C10", raw_head=b"GET @URL@ HTTP/1.1\r\nExpect: nope\r\n\r\n")], b""))
+    c.append(("nonascii", lambda: [Msg(), Msg(cls="close", why="C10", raw_head=b"GET @URL@ HTTP/1.1\r\nX: \xe9\r\n\r\n")], b""))
+    c.append(("long-header", lambda: [Msg(extra_headers=[("X-Long", "v" * 1100)]), Msg()], b""))
+    c.append(("many-headers", lambda: [Msg(extra_headers=[("X-%d" % i, "value%d" % i) for i in range(40)])], b""))
+    c.append(("big-response", lambda: [Msg(plan=respond(200, 3000)), Msg(plan=respond(200, 40000))], b""))
+    return c
+
+def fam_c13(tier, seed):
+    rng = _rng("C13", seed)
+    scs = []
+    k = 0
+    for name, mk, trailing in corpus(tier):
+        d0, j0, ln = conn(mk(), 0, trailing=trailing)
+        cutsets = [("whole", [])]
+        structural = set()
+        for m in d0["msgs"]:
+            for o in (m["hs"], m["he"], m["be"]):
+                for dlt in (-2, -1, 0, 1, 2):
+                    if 0 < o + dlt < ln:
+                        structural.add(o + dlt)
+        for o in (1022, 1023, 1024, 1025, 1026, 2048):
+            if 0 < o < ln:
+                structural.add(o)
+        if ln <= 300 or tier == "thorough":
+            singles = list(range(1, ln)) if ln <= 2500 else sorted(structural)
+        else:
+            singles = sorted(structural)
+        if tier == "quick" and len(singles) > 60:
+            singles = sorted(rng.sample(singles, 60))
+        for s in singles:
+            cutsets.append(("split@%d" % s, [s]))
+        if ln <= (400 if tier == "quick" else 3000):
+            cutsets.append(("bytewise", list(range(1, ln))))
+        for r in range(6 if tier == "quick" else 50):
+            kk = rng.randint(2, 8)
+            cutsets.append(("multi%d" % r, sorted(rng.sample(range(1, ln), min(kk, ln - 1)))))
+        for ctag, cuts in cutsets:
+            d, j, ln2 = conn(mk(), 0, trailing=trailing, cuts=cuts)
+            sc = scenario("C13-%04d" % k, "C13", [(d, j, ln2)], _single_app(), horizon_ms=100)
+            sc["tags"] = ["segmentation", "conv:" + name, ctag]
+            sc["conv"] = name
+            scs.append(sc)
+            k += 1
+    return scs
+
+def fam_c15(tier, seed):
+    rng = _rng("C15", seed)
+    scs = []
+    k = 0
+    for name, mk, trailing in corpus(tier):
+        if name in ("big-response", "many-headers", "long-header") and tier == "quick":
+            continue
+        d0, j0, ln = conn(mk(), 0)
+        offs = list(range(0, ln + 1))
+        if tier == "quick" and len(offs) > 40:
+            structural = set([0, ln])
+            for m in d0["msgs"]:
+                for o in (m["hs"], m["he"], m["be"]):
+                    for dlt in (-1, 0, 1):
+                        if 0 <= o + dlt <= ln:
+                            structural.add(o + dlt)
+            offs = sorted(structural | set(rng.sample(offs, 12)))
+        for off in offs:
+            for fault in ("half", "close", "reset"):
+                d, j, ln2 = conn(mk(), 0)
+                d["prog"] = ([{"op": "send", "to": off}] if off > 0 else []) + [{"op": fault}]
+                # a second client arrives afterwards and must be served
+                d2, j2, l2 = simple_conn(1, 1, at_ns=2 * MS)
+                sc = scenario("C15-%04d" % k, "C15", [(d, j, ln2), (d2, j2, l2)], _single_app(), horizon_ms=100, single=True)
+                sc["tags"] = ["vanish", "conv:" + name, "cut:%d" % off, fault]
+                scs.append(sc)
+                k += 1
+    # the client goes away while responses are being written / never reads
+    for size, declared in ((10, True), (3000, True), (70000, True), (5000, False)):
+        for when in ("before", "during", "noread"):
+            for fault in ("close", "reset"):
+                p = respond(200, size, declared=declared)
+                if when == "before":
+                    p["delay_ns"] = 2 * MS
+                d, j, ln = conn([Msg(plan=p), Msg(plan=respond(200, 5))], 0)
+                if when == "before":
+                    d["prog"] = [{"op": "send", "to": ln}, {"op": "sleep", "ns": 1 * MS}, {"op": fault}]
+                elif when == "during":
+                    d["window"] = 512
+                    d["no_read"] = True
+                    j["noread"] = True
+                    d["prog"] = [{"op": "send", "to": ln}, {"op": "sleep", "ns": 2 * MS}, {"op": fault}]
+                else:
+                    d["window"] = 256
+                    d["no_read"] = True
+                    j["noread"] = True
+                    d["prog"] = [{"op": "send", "to": ln}, {"op": "phase", "k": 1}, {"op": fault}]
+                d2, j2, l2 = simple_conn(1, 1, at_ns=4 * MS)
+                sc = scenario("C15-%04d" % k, "C15", [(d, j, ln), (d2, j2, l2)], [serve("recv", "spawn")], horizon_ms=100, single=True)
+                sc["tags"] = ["vanish", "response-side", "size:%d" % size, when, fault]
+                scs.append(sc)
+                k += 1
+    return scs
+
+FAMILIES.update({"C03": fam_c03, "C09": fam_c09, "C10": fam_c10, "C11": fam_c11, "C12": fam_c12, "C13": fam_c13,
+                 "C15": fam_c15, "C16": fam_c16, "C18": fam_c18})
